@@ -340,6 +340,21 @@ package comp
 //@   ensures forall k2 K, i int :: k2 != k ==> slot(r, k2, i) == old(slot(r, k2, i)) && validSlot(r, k2, i) == old(validSlot(r, k2, i)) && rank(r, k2, i) == old(rank(r, k2, i))
 //@   assigns r.idx[*], r.values[*], r.wrapped[*], r.values[k][*]
 
+// Rewrite: the ring of the key is rebuilt from the given values (most recent
+// first); the other keys keep everything.
+//@ func (*RAT).Rewrite
+//@   requires wfRAT(r) && allocated(values)
+//@   ensures wfRAT(r) && ringLen(r) == old(ringLen(r))
+//@   ensures len(values) == 0 ==> !has(r, k)
+//@   ensures len(values) > 0 ==> has(r, k) && newest(r, k) == old(at(values, lo(values)))
+//@   ensures forall k2 K :: k2 != k ==> has(r, k2) == old(has(r, k2)) && newest(r, k2) == old(newest(r, k2))
+//@   assigns r.idx[*], r.values[*], r.wrapped[*], all []V
+//@   loop 0: invariant -1 <= i && i < len(values) && wfRAT(r) && ringLen(r) == old(ringLen(r))
+//@   loop 0: invariant i == len(values) - 1 ==> !has(r, k)
+//@   loop 0: invariant i < len(values) - 1 ==> has(r, k) && newest(r, k) == at(values, lo(values) + i + 1) && fresh(r.values[k])
+//@   loop 0: invariant forall a :: lo(values) <= a && a < hi(values) ==> at(values, a) == old(at(values, a))
+//@   loop 0: invariant forall k2 K :: k2 != k ==> has(r, k2) == old(has(r, k2)) && newest(r, k2) == old(newest(r, k2))
+
 //@ func (*RAT).Values
 //@   requires wfRAT(r)
 //@   ensures result != nil && fresh(result)
